@@ -24,7 +24,7 @@ ASSUMPTIONS = ['the plain run (corpus asflags, -q) is the reference; sha-256 col
 
 MANIFEST = dict(
     category='exploration', design_ref='DESIGN.md §4 C17',
-    technique='metamorphic runtime monitor: sha-256 of the code file across repeated / re-optioned / re-located executions of the sanitised binary',
+    technique='metamorphic runtime monitor: sha-256 of the code file across repeated / re-optioned / re-located executions of the sanitised binary; plus valgrind memcheck on the uninstrumented hook build (no byte written to a file and no decision may stem from uninitialised memory)',
     text='Held on the executions of this run: every golden-corpus program and generated programs were assembled under K sampled configurations '
          '(report-option subsets, locale, cwd, output path, option carrier), each twice; code files must be byte-identical to the plain run and '
          'listing/MAP/share outputs reproducible after masking the time stamp. Sampling, not exhaustive over option subsets.',
